@@ -43,7 +43,7 @@ def _admission_paths(ex_holder):
         k(p, Sym('limit', 'std::option::Option<usize>'))
 
     def m_handshake(ex, p, call, k):
-        p.events.append(Event('ADMIT', 'handshake', (call.args[0],)))
+        p.events.append(Event('ADMIT', 'handshake', (ex.deref(p, call.args[0]),)))     # by value or by reference
         k(p, Sym('handshake_future', 'fut'))
 
     models = [(r'^<endpoint::Connecting as Future>::poll$', m_connecting_poll),
